@@ -4,8 +4,9 @@ applied (tools/seedrun.sh; /repo itself is not touched), a few seeds in parallel
 the outcome in seeded/<id>/detect.json.  usage: seedmatrix.py [-j N] [--tier quick] [seed-id[:P1,P2] ...]"""
 import concurrent.futures as cf, json, os, re, subprocess, sys, time
 
-ROOT = "/verif/seeded"
-FIND = {f["id"]: f for f in json.load(open("/verif/known_findings.json"))["findings"]}
+V = os.path.dirname(os.path.dirname(os.path.realpath(__file__)))
+ROOT = V + "/seeded"
+FIND = {f["id"]: f for f in json.load(open(V + "/known_findings.json"))["findings"]}
 
 def props_of(seed):
     if seed.startswith("revert-"):
@@ -14,7 +15,7 @@ def props_of(seed):
 
 def run(seed, props, tier):
     t = time.time()
-    p = subprocess.run(["/verif/tools/seedrun.sh", seed, tier] + props, stdout=subprocess.PIPE,
+    p = subprocess.run([V + "/tools/seedrun.sh", seed, tier] + props, stdout=subprocess.PIPE,
                        stderr=subprocess.STDOUT, text=True)
     res = {}
     for line in p.stdout.splitlines():
@@ -23,7 +24,7 @@ def run(seed, props, tier):
             res[m.group(2)] = {"rc": int(m.group(3)), "caught": m.group(3) == "1",
                                "guards": [x for x in m.group(4).split(",") if x],
                                "tier": tier}
-    head = subprocess.run(["git", "-C", "/verif", "rev-parse", "--short", "HEAD"], stdout=subprocess.PIPE, text=True).stdout.strip()
+    head = subprocess.run(["git", "-C", V, "rev-parse", "--short", "HEAD"], stdout=subprocess.PIPE, text=True).stdout.strip()
     out = {"verif_commit": head + "+", "results": res, "wall_s": round(time.time() - t)}
     dp = os.path.join(ROOT, seed, "detect.json")
     old = json.load(open(dp)) if os.path.exists(dp) else {"results": {}}
